@@ -77,6 +77,12 @@ MUTANTS = [
     ("C05", "cuqi/distribution/_normal.py", "            s =  rng.normal(self.mean, self.std, (N,self.dim)).T", "            s =  np.random.normal(self.mean, self.std, (N,self.dim)).T"),
     ("C05", "cuqi/distribution/_gamma.py", "return rng.gamma(shape=self.shape, scale=self.scale, size=(N, self.dim)).T", "return rng.gamma(shape=self.shape, scale=self.rate, size=(N, self.dim)).T"),
     ("C05", "cuqi/distribution/_lognormal.py", "return np.exp(self._normal._sample(N,rng))", "return np.exp(self._normal._sample(N))"),
+    # C10
+    ("C10", "cuqi/experimental/mcmc/_conjugate.py", "        dist = Gamma(shape=m/2 + alpha, rate=.5 * np.linalg.norm(L @ (Ax - b))**2 + beta)\n\n        return dist.sample()\n\n\nclass _RegularizedGaussianGammaPair", "        dist = Gamma(shape=m + alpha, rate=.5 * np.linalg.norm(L @ (Ax - b))**2 + beta)\n\n        return dist.sample()\n\n\nclass _RegularizedGaussianGammaPair"),
+    ("C10", "cuqi/sampler/_conjugate.py", "        dist = Gamma(shape=m/2+alpha,rate=.5*np.linalg.norm(L@(Ax-b))**2+beta)", "        dist = Gamma(shape=m/2+alpha,rate=np.linalg.norm(L@(Ax-b))**2+beta)"),
+    ("C10", "cuqi/experimental/mcmc/_conjugate.py", "    return all(math.isclose(f(x), 1.0 / x) for x in [1.0, 10.0, 100.0])", "    return any(math.isclose(f(x), 1.0 / x) for x in [1.0, 10.0, 100.0])"),
+    ("C10", "cuqi/experimental/mcmc/_conjugate.py", "        L = self.target.likelihood.distribution(np.array([1])).sqrtprec # L\n        alpha = self.target.prior.shape                                 # alpha\n        beta = self.target.prior.rate                                   # beta\n\n        dist = Gamma(shape=m/2 + alpha, rate=.5 * np.linalg.norm(L @ (Ax - b))**2 + beta)\n\n        return dist.sample()\n\n\nclass _Reg", "        L = self.target.likelihood.distribution(np.array([1])).sqrtprec # L\n        alpha = self.target.prior.shape                                 # alpha\n        beta = self.target.prior.rate                                   # beta\n\n        dist = Gamma(shape=m/2 + alpha, rate=.5 * np.linalg.norm(L @ (Ax - b))**2)\n\n        return dist.sample()\n\n\nclass _Reg"),
+    ("C10", "cuqi/experimental/mcmc/_direct.py", "        self.current_point = self.target.sample()\n        return 1", "        self.current_point = self.target.sample(2).samples[:,-1]\n        return 1"),
     # C12
     ("C12", "cuqi/model/_model.py", "        if isinstance(x, CUQIarray) and  x.geometry == geometry:\n            x = x.funvals", "        if isinstance(x, CUQIarray) and  x.geometry == geometry:\n            x = x"),
     ("C12", "cuqi/model/_model.py", "        return self._2par(out, func_range_geometry, \n", "        return self._2par(out, func_domain_geometry, \n"),
